@@ -64,9 +64,12 @@ LAM_TOL = 1e-6         # treigen multiplier classes relative to |A|
 PATH_TOL = 1e-9        # dogleg: distance to the polyline <= PATH_TOL * max(|cp|, |newton|) (M-norm)
 MAX_COND_M = 1e6       # conditioning of the preconditioner matrices generated (norm measurement is exact to cond*eps)
 RADIUS_MIN, RADIUS_MAX = 1e-15, 1e15   # absolute radii generated (no overflow of squared quantities)
+REL_RADIUS_MIN, REL_RADIUS_MAX = 1e-6, 1e6   # radius / (|g|/|H|): the twelve decades of the quantifier
 TRE_TIMEOUT = 5.0      # seconds before a treigen.solve call is declared non-terminating
 
 ASSUMPTIONS = [
+    "radii: Delta / (|g|/|H|) in [1e-6, 1e6] (configured norm), absolute values in [1e-15, 1e15]; cond(H) <= 1e8 for "
+    "nonsingular spectra; singular spectra have exact zero eigenvalues",
     "synthetic operators H = Q diag(sigma) Q^T symmetrised; preconditioner P and its inverse M built from one "
     "eigen-form with cond(M) <= 1e6, so the M-norm is measured to ~1e-10 relative",
     "configured norm: use_preconditioned_inner_product_for_cg=False -> Euclidean; True -> sqrt(z.M z) with M = P^-1 "
@@ -422,6 +425,28 @@ def probe_path(arr, mode, cap, cg_tol, ratio):
     return dict(norms=norms, typ=typ, it=it)
 
 
+def natural_length(arr, mode):
+    """Length scale of the subproblem, |g| / |H| measured in the configured norm; generated radii span the twelve
+    decades [1e-6, 1e6] around it (the quantifier of the property)."""
+    nh = float(onp.linalg.norm(arr["H"], 2))
+    v = arr["g"] / nh if nh > 0 else arr["g"]
+    L = cfg_norm(v, arr["M"], mode)
+    return L if (L > 0 and math.isfinite(L)) else 1.0
+
+
+def radius_ok(arr, mode, dl):
+    L = natural_length(arr, mode)
+    return math.isfinite(dl) and RADIUS_MIN <= dl <= RADIUS_MAX and REL_RADIUS_MIN <= dl / L <= REL_RADIUS_MAX
+
+
+def clamp_radius(arr, mode, dl):
+    L = natural_length(arr, mode)
+    if not (math.isfinite(dl) and dl > 0):
+        dl = L
+    dl = min(REL_RADIUS_MAX * L, max(REL_RADIUS_MIN * L, dl))
+    return min(RADIUS_MAX, max(RADIUS_MIN, dl))
+
+
 def cg_case(rec, delta, mode, cap, origin):
     c = dict(family="cg", origin=origin, delta=float(delta), mode=bool(mode), cap=int(cap))
     c.update(rec)
@@ -500,7 +525,7 @@ def search_catalogue(catalogue, per_key, budget, rng, ns, maxcg):
                 props.append((key_of(mode, j, "interior_", j), big, j))
         rng.shuffle(props)
         for k, dl, cap in props:
-            if need.get(k, 0) <= 0 or not math.isfinite(dl) or not (RADIUS_MIN <= dl <= RADIUS_MAX):
+            if need.get(k, 0) <= 0 or not radius_ok(arr, mode, dl):
                 continue
             c = cg_case(rec, dl, mode, cap, "catalogue")
             ev, nums, _ = run_cg_case(c)
@@ -525,7 +550,7 @@ def free_cg_cases(rng, count, ns):
         arr = build_cg(rec)
         pr = probe_path(arr, mode, cap, rec["cg_tol"], rec["ratio"])
         if pr is None:
-            out.append(cg_case(rec, 1.0, mode, cap, "free"))
+            out.append(cg_case(rec, clamp_radius(arr, mode, 1.0), mode, cap, "free"))
             continue
         norms = pr["norms"]
         base = (norms[-1] if norms else float(onp.linalg.norm(arr["P"] @ arr["g"]))) or 1.0
@@ -538,10 +563,7 @@ def free_cg_cases(rng, count, ns):
             dl = base * 10 ** rng.uniform(-6, 0)
         else:
             dl = base * 10 ** rng.uniform(0, 6)
-        if not (math.isfinite(dl) and dl > 0):
-            dl = 1.0
-        dl = min(RADIUS_MAX, max(RADIUS_MIN, dl))
-        out.append(cg_case(rec, dl, mode, cap, "free"))
+        out.append(cg_case(rec, clamp_radius(arr, mode, dl), mode, cap, "free"))
     return out
 
 
@@ -563,7 +585,7 @@ def converge_cg_cases(rng, count, ns):
         arr = build_cg(rec)
         mode = bool(rng.getrandbits(1))
         base = float(onp.linalg.norm(onp.linalg.pinv(arr["H"], rcond=1e-12) @ arr["g"])) or 1.0
-        dl = min(RADIUS_MAX, base * cfg_scale(arr["M"], mode) * 10 ** rng.uniform(0.5, 3))
+        dl = clamp_radius(arr, mode, base * cfg_scale(arr["M"], mode) * 10 ** rng.uniform(0.5, 3))
         out.append(cg_case(rec, dl, mode, rng.choice([10, 20, 50, 100]), "converge"))
     return out
 
@@ -590,9 +612,10 @@ def longpath_cg_cases(rng, count, ns):
         norms = pr["norms"]
         j = rng.randrange(5, len(norms))
         lo = max(norms[:j])
-        if not (norms[j] > lo and RADIUS_MIN < norms[j] < RADIUS_MAX):
+        dl = lo + (norms[j] - lo) * rng.uniform(0.02, 0.98)
+        if not (norms[j] > lo and radius_ok(arr, mode, dl)):
             continue
-        out.append(cg_case(rec, lo + (norms[j] - lo) * rng.uniform(0.02, 0.98), mode, cap, "longpath"))
+        out.append(cg_case(rec, dl, mode, cap, "longpath"))
     return out
 
 
